@@ -81,6 +81,11 @@ func (b *ReaderX) ReadN(n int) ([]byte, error) {
 
 // ZReadN read n length buffer - no copy
 func (b *ReaderX) ZReadN(n int) ([]byte, error) {
+	if n == 0 {
+		// same as BufferX.ZReadN: nothing to read is not an error
+		// (ReadString/ReadLimitString come here for the empty string)
+		return []byte{}, nil
+	}
 	return b.ReadN(n)
 }
 
